@@ -345,7 +345,7 @@ def cfp_post(st0, st1, a, res):
 CHANGE_FUNDAMENTAL = FSpec("Market.change_fundamental_price", pre=cfp_pre, post=cfp_post, modifies=cfp_modifies, props=("C14", "C12", "C06"))
 
 
-@task("Market.change_fundamental_price", props=["C14", "C12", "C06"], functions=["Market.change_fundamental_price", "Market.get_fundamental_price"], replay="events")
+@task("Market.change_fundamental_price", props=["C14", "C12", "C06"], functions=["Market.change_fundamental_price", "Market.get_fundamental_price"], replay="fundamentals")
 def t_change_fundamental():
     obl, info = CHANGE_FUNDAMENTAL.verify()
     return {"obligations": obl, "info": [info]}
